@@ -505,6 +505,10 @@ def monitor_check(ck, kind, dn, rng, n_cases, tols):
             if cls == "uniform-scale" and HAS_S[kind]:
                 cls = "shear"
             mag_ = float(unit * 10.0 ** rng.uniform(1.2, 5)) if rng.integers(0, 4) else float(rng.uniform(0.05, 2))
+            if rtol != atol and cls in ("shear", "noise") and rng.random() < 0.75:
+                # unequal tolerances: a defect between the two (invalid by the smaller one only) is what tells them apart
+                lo_, hi_ = min(rtol, atol), max(rtol, atol)
+                mag_ = float(lo_ * 10.0 ** rng.uniform(1.3, max(1.4, np.log10(hi_ / lo_) - 1.0)))
             A = s * perturb(kind, rng, R, cls, mag_)
             M4 = np.zeros((nb, 4, 4), dtype=L.LD)
             # the other items of the batch are valid elements
@@ -608,6 +612,8 @@ def run(ck):
                 job += 1
                 if ck.mine(job):
                     tols = [(1e-5, 1e-5), (1e-3, 1e-3)] + ([(1e-9, 1e-9)] if dn == "f64" else [])
+                    # rtol != atol (off-diagonal entries of R R^T - I are judged by atol alone, diagonal ones by atol + rtol)
+                    tols += [(1e-3, 1e-7), (1e-7, 1e-3)] if dn == "f64" else [(1e-2, 1e-5), (1e-5, 1e-2)]
                     monitor_check(ck, kind, dn, rng, (200 if thorough else 60), tols)
                     bottom_row_observation(ck, kind, dn, rng)
             # requirements (input classes)
